@@ -332,9 +332,20 @@ def K2_reader(rep, flow: Flow):
             for name, pos in want.items():
                 v = fields.get(name)
                 ok = isinstance(v, tuple) and v[0] == "int" and isinstance(v[1], tuple) and v[1][0] == "field" and v[1][2] == ("const", "str", ":") and v[1][3] == ("const", "int", pos)
+                is_field = isinstance(v, tuple) and v and v[0] == "int" and isinstance(v[1], tuple) and v[1][0] == "field"
                 if ok:
                     lines.add(v[1][1])
                     rep.ok("K2", 1, nontrivial=(f.fq, name), sample=f"{f.qualname}: .{name} = int(line.split(':')[{pos}])")
+                elif v is not None and not is_field and _column_arith(v) is not None:
+                    col, fn = _column_arith(v)
+                    wantcol = col[0] == "int" and col[1][2] == ("const", "str", ":") and col[1][3] == ("const", "int", pos)
+                    if wantcol and all(fn(x) == x for x in (0, 1, 2, 7, 30)):
+                        lines.add(col[1][1])
+                        rep.ok("K2", 1, nontrivial=(f.fq, name), sample=f"{f.qualname}: .{name} = {fmt(v)} (identity on the column)")
+                    else:
+                        rep.finding("K2", f"{f.fq}:{name}", f"{f.module.rel} {f.qualname}: metadata field .{name} is {fmt(v)}, which differs from the documented column (position {pos} of the ':'-separated line)")
+                elif v is not None and not is_field:
+                    raise AnalysisError(f"{f.module.rel} {f.qualname}: metadata field .{name} = {fmt(v)[:100]} is computed, not read from a column of the line: whether it equals the documented column is a value-level question K2 cannot decide")
                 else:
                     rep.finding("K2", f"{f.fq}:{name}", f"{f.module.rel} {f.qualname}: metadata field .{name} is {fmt(v) if v is not None else 'absent'}, documented column is position {pos} of the ':'-separated line")
             cs = [v for k, v in fields.items() if isinstance(v, tuple) and v and v[0] == "field" and v[3] == ("const", "int", 3)]
@@ -363,6 +374,30 @@ def K2_reader(rep, flow: Flow):
                     raise AnalysisError(f"{ev[4]}: the loader is fed a TRANSFORMED copy of position 3 of the table line ({[fmt(k)[:80] for k in keys]}): whether the transformation preserves the circuit is outside K2")
                 else:
                     rep.finding("K2", "loader-arg", f"{ev[4]}: the loader is fed {[fmt(k) for k in keys]}, not position 3 of the table line")
+
+
+def _column_arith(v):
+    """v is integer arithmetic over ONE column int(field(...)) and constants: (column key, python function of the column value)"""
+    cols = []
+
+    def rec(k):
+        if isinstance(k, tuple) and k and k[0] == "int" and isinstance(k[1], tuple) and k[1] and k[1][0] == "field":
+            if k not in cols:
+                cols.append(k)
+            return lambda x: x
+        if isinstance(k, tuple) and k and k[0] == "const" and isinstance(k[2], int):
+            return lambda x, c=k[2]: c
+        ops = {"binAdd": lambda a, b: a + b, "binSub": lambda a, b: a - b, "binMult": lambda a, b: a * b, "binFloorDiv": lambda a, b: a // b if b else 0}
+        if isinstance(k, tuple) and k and k[0] in ops and len(k) == 3:
+            fa, fb = rec(k[1]), rec(k[2])
+            if fa is None or fb is None:
+                return None
+            return lambda x, o=ops[k[0]], fa=fa, fb=fb: o(fa(x), fb(x))
+        return None
+    fn = rec(v)
+    if fn is None or len(cols) != 1:
+        return None
+    return cols[0], fn
 
 
 def _mentions_pos3(k):
